@@ -49,7 +49,7 @@ def eligible_models():
 def cases(draw, name):
     from sasmodels import core
     info = core.load_model_info(name)
-    src = draw(st.sampled_from(["random", "random", "default", "perturbed", "perturbed"]))
+    src = draw(st.sampled_from(["random", "random", "default", "perturbed", "perturbed", "wide"]))
     if src == "random" and info.random is not None:
         pars = c14.random_pars(info, draw(st.integers(0, 10 ** 6)))
     elif src == "perturbed":
@@ -63,6 +63,19 @@ def cases(draw, name):
             used.add(f)
             if len(used) >= 7:
                 used.clear()
+            lo, hi = p.limits
+            v = p.default * f if p.default != 0 else 0.1 * f
+            pars[pname] = S.sig(min(max(v, lo), hi))
+    elif src == "wide":
+        # independent log-uniform factors in [0.1, 10]: reaches the regimes (short chains, thin shells, flat
+        # or elongated shapes) that a model's own generator and near-default perturbations leave out
+        pars = {}
+        for pname, p in S.expanded_parameters(info):
+            if p.type in ("magnetic", "orientation") or S._is_integer_like(p):
+                continue
+            # pure numbers (volume fractions, ratios, exponents) keep to a near-default range: their joint
+            # validity (fractions summing below one, ...) is a precondition of the models
+            f = 10 ** draw(st.floats(-1, 1)) if UNIT_EXP[p.units] else draw(st.sampled_from([0.7, 0.85, 1.0, 1.15, 1.3]))
             lo, hi = p.limits
             v = p.default * f if p.default != 0 else 0.1 * f
             pars[pname] = S.sig(min(max(v, lo), hi))
@@ -99,6 +112,18 @@ def _cmp(got, want):
     return float(np.max(np.abs(got[sel] / want[sel] - 1.0))), int(sel.sum())
 
 
+def _as_power(a, b, lam):
+    """':as-lambda<k>' when b = lam^k a to tolerance for a whole k other than 3 (a model that scales exactly,
+    but with another power, is a different failure from one that does not scale at all)."""
+    if abs(math.log(lam)) < 3e-6:
+        return ""
+    for k in (0, 1, 2, 4, 5, 6):
+        dev, n = _cmp(b, np.asarray(a) * lam ** k)
+        if n and dev <= TOL:
+            return ":as-lambda%d" % k
+    return ""
+
+
 def check_scaling(case, rec):
     from sasmodels import core, direct_model
     name, lam, mu = case["model"], case["lam"], case["mu"]
@@ -113,13 +138,14 @@ def check_scaling(case, rec):
         if UNIT_EXP[p.units] != 0:
             lengths.append(full[pname])
     full["scale"], full["background"] = 1.0, 0.0
-    scaled, sldmu = dict(full), dict(full)
+    def rescale(base):
+        out = dict(base)
+        for pname, p in S.expanded_parameters(info):
+            if p.type != "magnetic" and UNIT_EXP[p.units]:
+                out[pname] = base[pname] * lam ** UNIT_EXP[p.units]
+        return out
+    scaled, sldmu = rescale(full), dict(full)
     for pname, p in S.expanded_parameters(info):
-        if p.type == "magnetic":
-            continue
-        e = UNIT_EXP[p.units]
-        if e:
-            scaled[pname] = full[pname] * lam ** e
         if p.type == "sld":
             sldmu[pname] = full[pname] * mu
     rec.cls("model:" + name, "source:" + case["source"])
@@ -127,15 +153,31 @@ def check_scaling(case, rec):
     q = np.array(case["q"], float)
     k1 = model.make_kernel([q])
     k2 = model.make_kernel([q / lam])
-    a = direct_model.call_kernel(k1, dict(full), cutoff=0.0)
-    b = direct_model.call_kernel(k2, dict(scaled), cutoff=0.0)
+    a = np.asarray(direct_model.call_kernel(k1, dict(full), cutoff=0.0), float)
+    b = np.asarray(direct_model.call_kernel(k2, dict(scaled), cutoff=0.0), float)
     c = direct_model.call_kernel(k1, dict(sldmu), cutoff=0.0)
-    dev, n = _cmp(b, np.asarray(a) * lam ** 3)
+    dev, n = _cmp(b, a * lam ** 3)
     if n:
         rec.cls("compared:lambda3")
     if dev > TOL:
-        rec.fail("lambda3:" + name, "lambda=%g: I(q/l; scaled p)/(l^3 I(q;p)) - 1 = %.3g; I=%r I'=%r pars=%r"
-                 % (lam, dev, a, b, case["pars"]))
+        # A piecewise model evaluated exactly on one of its branch thresholds (flexible_cylinder's defaults have
+        # length/kuhn_length = 10, where a coefficient jumps) takes either branch depending on the rounding of
+        # lambda*L/(lambda*b).  That is a discontinuity of the model, not a unit error: a unit error persists on
+        # an open neighbourhood, so the relation is re-examined a relative 1e-6 away from the point.
+        moved = dict(full)
+        for i, (pname, p) in enumerate(S.expanded_parameters(info)):
+            if p.type in ("magnetic", "orientation", "sld") or S._is_integer_like(p):
+                continue
+            moved[pname] = full[pname] * (1 + 1e-6 * (0.37 + 0.61 * i))
+        a2 = np.asarray(direct_model.call_kernel(k1, dict(moved), cutoff=0.0), float)
+        b2 = np.asarray(direct_model.call_kernel(k2, rescale(moved), cutoff=0.0), float)
+        dev2, n2 = _cmp(b2, a2 * lam ** 3)
+        if n2 and dev2 <= TOL:
+            rec.cls("threshold-coincidence:" + name)
+        else:
+            rec.fail("lambda3:" + name + _as_power(a, b, lam),
+                     "lambda=%g: I(q/l; scaled p)/(l^3 I(q;p)) - 1 = %.3g (%.3g a relative 1e-6 away); I=%r I'=%r pars=%r"
+                     % (lam, dev, dev2, a, b, case["pars"]))
     if any(p.type == "sld" for _n, p in S.expanded_parameters(info)):
         dev, n = _cmp(c, np.asarray(a) * mu ** 2)
         if n:
@@ -154,10 +196,12 @@ def check_scaling(case, rec):
         if reports_volume and np.isfinite(sa) and sa > 0 and np.isfinite(sb):
             rec.cls("compared:volume")
             if abs(sb / (sa * lam ** 3) - 1) > TOL:
-                rec.fail("shell-volume:" + name, "V_shell %r -> %r, expected x%g" % (sa, sb, lam ** 3))
+                rec.fail("shell-volume:" + name + _as_power([sa], [sb], lam),
+                         "V_shell %r -> %r, expected x%g" % (sa, sb, lam ** 3))
             fa_, fb_ = sa * rata, sb * ratb
             if np.isfinite(fa_) and fa_ > 0 and abs(fb_ / (fa_ * lam ** 3) - 1) > TOL:
-                rec.fail("form-volume:" + name, "V_form %r -> %r, expected x%g" % (fa_, fb_, lam ** 3))
+                rec.fail("form-volume:" + name + _as_power([fa_], [fb_], lam),
+                         "V_form %r -> %r, expected x%g" % (fa_, fb_, lam ** 3))
         if case["mode"] and np.isfinite(ra) and ra > 0:
             rec.cls("compared:reff")
             if not abs(rb / (ra * lam) - 1) <= TOL:
